@@ -1,42 +1,132 @@
 """C11 regular Merkle tree.  RMT.tla: the incremental append rule is checked by TLC against the declarative
-LIP-0031 root / append path for every size 0..MaxN; the expected root and append-path TERMS of every size and
-every non-empty leaf subset of every list up to 7 leaves are exported and the harness compares Append /
-CalculateRoot / reload / GenerateProof+VerifyProof / CalculateRootFromUpdateData / Update / right witnesses /
-CalculateRootFromAppendPath of the real code with the folded terms."""
-import json, os
+LIP-0031 root / append path for every size 0..MaxN; the expected root and append-path TERMS of every size, every
+non-empty leaf subset of every list up to 7 leaves, the deterministic subset SHAPES of the longer lists, the leaf-value
+families (repeated / empty / 32-byte / long values), the tamper table and - mode "hist" - histories of one tree object
+(Append / Update of a leaf set / Reload, simulated by TLC with HRootIsBatch and HPathIsDecl checked in every state) are
+exported, and the harness compares Append / CalculateRoot / reload / GenerateProof+VerifyProof /
+CalculateRootFromUpdateData / Update / right witnesses / CalculateRootFromAppendPath / Block.Validate of the real code
+with the folded terms after every operation.
+
+VERIF_EXPERIMENTAL=1 switches on the sub-checks that are red on the unchanged tree (see GATED)."""
+import json, os, time
+from concurrent.futures import ThreadPoolExecutor
 import common
 from common import Inconclusive, finish, log
 from props import c01
 
 LEVEL = "model_checking"
 
+# sub-checks behind VERIF_EXPERIMENTAL=1 (genuine-defect candidates on the unchanged tree, waiting for triage)
+GATED = ["append-after-update", "append-path-after-update", "witness-after-update:position-0", "append-after-update:repeated-values",
+         "reload:size-1", "aliasing:append-path-input", "aliasing:witness-input", "aliasing:proof-input"]
+
+# what a run must have exercised (harness counters `cov`); a run in which one of them never happened is vacuous
+NEED = ["prove-append-prove", "prove-update-prove", "prove-reload-prove", "update-after-update", "hist:update-after-update",
+        "proof-after-update:other-leaves", "witness-after-update", "hist:witness-after-update", "witness-after-append",
+        "hist:reload-after-update", "hist:list-with-repeated-values", "hist:list-with-empty-value", "hist:list-with-32-byte-or-long-value",
+        "family:repeated", "family:empty+h32", "family:all-equal-long", "batch-root:second-call", "kept-root", "reload-witness",
+        "proof-on-reloaded-tree", "block-roots",
+        "tamper:witness:forge-witness", "tamper:witness:forge-path", "tamper:witness:drop-witness", "tamper:witness:other-root",
+        "tamper:witness:nil-root", "tamper:witness:empty-root", "tamper:witness:short-root",
+        "tamper:proof:forge-query", "tamper:proof:forge-sibling", "tamper:proof:drop-sibling", "tamper:proof:other-root",
+        "tamper:proof:nil-root", "tamper:proof:empty-root", "tamper:proof:short-root"]
+
+
+def tlc_rows(ctx, name, cfg, **kw):
+    r = ctx.tlc("RMT", cfg, workers=1, timeout=1800, java_opts="-Xss512m", **kw)
+    if r["violation"]:
+        raise Inconclusive("RMT.tla invariant fails at spec level (%s): %s" % (name, r["outpath"]))
+    rows, seen = [], set()
+    for t in ctx.dumps(r["out"]):
+        k = json.dumps(t, sort_keys=True)
+        if k not in seen:
+            seen.add(k); rows.append(t)
+    return rows
+
+
 def run(ctx):
-    binp = ctx.go_build("./cmd/c11")
-    maxn = 40 if ctx.tier == "quick" else 140
+    quick = ctx.tier == "quick"
+    maxn = 40 if quick else 140
+    # the random part (TLC simulation, sampled subsets, probes) follows VERIF_SEED when it is given and varies per run otherwise
+    sample_seed = ctx.seed if os.environ.get("VERIF_SEED") else int(time.time()) % 1000003 + 1
+    replay_hist = None
+    if getattr(ctx, "replay", None):
+        try:
+            d = json.load(open(ctx.replay)).get("replay")
+            while isinstance(d, dict) and "case" in d:
+                d = d["case"]
+            if isinstance(d, dict) and d.get("hist"):
+                replay_hist = d["hist"]
+        except Exception as e:
+            raise Inconclusive("cannot read the replay file: %s" % e)
+    modes = [("both", dict(MaxN=maxn, BigN=1100 if quick else 4200, MaxSub=7 if quick else 9, ShapeMax=maxn, ShapeBig=129 if quick else 1025), {}),
+             ("hist", dict(HMaxN=maxn, HDepth=10 if quick else 16),
+              dict(simulate=60 if quick else 1500, depth=12 if quick else 18, seed=sample_seed))]
+    if replay_hist is not None:
+        modes = modes[:1]
+    cfgs = [(m, c01.write_cfg(ctx, "rmt_" + m, c01.cfg_text("RMT_" + m, **kw)), tk) for m, kw, tk in modes]
+    with ThreadPoolExecutor(max_workers=4) as ex:
+        futs = [ex.submit(tlc_rows, ctx, m, cfg, **tk) for m, cfg, tk in cfgs]
+        build = ex.submit(ctx.go_build, "./cmd/c11")
+        if not quick and replay_hist is None:
+            # control: the implementation shape "Update keeps the old append path" must violate the invariants of the design
+            ctl = ex.submit(ctx.tlc, "RMT", c01.write_cfg(ctx, "rmt_hist_ctl", c01.cfg_text("RMT_hist", RefreshPath="FALSE")),
+                            workers=1, timeout=900, java_opts="-Xss512m", simulate=200, depth=12, seed=sample_seed, check=False)
+        binp = build.result()
+        per_mode = [f.result() for f in futs]
+        if not quick and replay_hist is None:
+            c = ctl.result()
+            if not c["violation"]:
+                raise Inconclusive("control configuration (Update keeps the old append path) does not violate HPathIsDecl: the history model is vacuous")
     rows = ctx.path("rows.ndjson")
-    n = 0
     with open(rows, "w") as fh:
-        for mode, kw in (("sizes", dict(MaxN=maxn, BigN=1100 if ctx.tier == "quick" else 4200)), ("subsets", dict(MaxSub=7 if ctx.tier == "quick" else 9))):
-            cfg = c01.write_cfg(ctx, "rmt_" + mode, c01.cfg_text("RMT_" + mode, **kw))
-            r = ctx.tlc("RMT", cfg, workers=1, timeout=1800, java_opts="-Xss512m")
-            if r["violation"]:
-                raise Inconclusive("RMT.tla invariant fails at spec level: %s" % r["outpath"])
-            for t in ctx.dumps(r["out"]):
-                fh.write(json.dumps(t) + "\n"); n += 1
+        for lst in per_mode:
+            for t in lst:
+                fh.write(json.dumps(t) + "\n")
+        if replay_hist is not None:
+            fh.write(json.dumps(dict(hist=replay_hist)) + "\n")
+    nhist = len(per_mode[1]) if len(per_mode) > 1 else 0
     of = ctx.path("c11.json")
-    p = ctx.run([binp, rows, of], env={"C11_EXTRA": "300" if ctx.tier == "quick" else "6000"}, timeout=3000)
+    env = {"C11_EXTRA": "300" if quick else "6000", "C11_SAMPLE_SEED": str(sample_seed)}
+    if replay_hist is not None:
+        env["C11_ONLY"] = "hist"
+    p = ctx.run([binp, rows, of], env=env, timeout=3000)
     if p.returncode != 0 or not os.path.exists(of):
         raise Inconclusive("c11 harness failed: " + p.stderr[-1500:])
     res = json.load(open(of))
     for v in res.get("violations") or []:
         ctx.violation(v["key"], v["what"], v.get("replay"))
-    log("[c11] sizes=%d subsets=%d evaluations=%d witness positions=%d tampered rejected=%d" % (
-        res["sizes"], res["subsets"], res["evaluations"], res["witness_positions"], res["tampered_rejected"]))
-    if not ctx.violations and (res["sizes"] < maxn + 20 or res["subsets"] < 100):
-        raise Inconclusive("rows missing: vacuous")
-    cov = dict(traces_validated_against_impl=res["sizes"] + res["subsets"],
-               samples=[dict(n=5, subset=[3, 5], what="append 5 leaves, prove {3,5}, verify, tamper, update through the proof, reload")],
-               list_lengths=res["sizes"], leaf_subsets=res["subsets"], evaluations=res["evaluations"],
-               witness_positions=res["witness_positions"], tampered_rejected=res["tampered_rejected"], exhaustive=True,
-               rule="sizes 0..%d exhaustively (incremental = batch = declarative root checked by TLC and on the real tree); all non-empty leaf subsets of lists up to 7 leaves; sampled subsets of larger lists" % maxn)
-    finish(ctx, LEVEL, cov, assumptions=["SHA-256 is injective on the terms that occur", "leaf data are pairwise distinct (proofs are requested by leaf hash)"])
+    if res.get("harness_errors") and not ctx.violations:
+        raise Inconclusive("c11 harness error: %s" % res["harness_errors"][:2])
+    cov, gated = res.get("cov") or {}, res.get("gated") or {}
+    log("[c11] sizes=%d subsets=%d (shapes %d) histories=%d (%d steps) evaluations=%d witness positions=%d tampered rejected=%d sample seed=%d" % (
+        res["sizes"], res["subsets"], res["shapes"], res["histories"], res["history_steps"], res["evaluations"],
+        res["witness_positions"], res["tampered_rejected"], sample_seed))
+    if gated:
+        log("[c11] sub-checks behind VERIF_EXPERIMENTAL=1 (skipped %s)" % ", ".join("%s x%d" % kv for kv in sorted(gated.items())))
+    unknown = [k for k in gated if k not in GATED]
+    if unknown:
+        raise Inconclusive("the harness gates sub-checks the driver does not know: %s" % unknown)
+    if replay_hist is not None:
+        finish(ctx, LEVEL, dict(traces_validated_against_impl=res["histories"], samples=[dict(hist=replay_hist[:2])], history_steps=res["history_steps"]))
+    if not ctx.violations:
+        if res["sizes"] < maxn + 20 or res["subsets"] < 100 or res["shapes"] < 100 or res["histories"] < min(50, nhist) or nhist < 50:
+            raise Inconclusive("rows missing: vacuous (sizes %d, subsets %d, shapes %d, histories %d of %d)" % (
+                res["sizes"], res["subsets"], res["shapes"], res["histories"], nhist))
+        missing = [k for k in NEED if not cov.get(k)]
+        if os.environ.get("VERIF_EXPERIMENTAL") == "1":
+            missing += [k for k in ("hist:append-after-update", "append-after-update", "hist:append-after-update-with-repeated-values") if not cov.get(k)]
+        else:
+            missing += [k for k in GATED if not gated.get(k)]   # the scenario of every gated sub-check was reached (and skipped)
+        if missing:
+            raise Inconclusive("scenarios that never happened in this run: %s: vacuous" % missing)
+    covd = dict(traces_validated_against_impl=res["sizes"] + res["subsets"] + res["histories"],
+                samples=[dict(n=5, subset=[3, 5], what="append 5 leaves, prove {3,5}, verify, tamper, update through the proof, reload, prove other leaves, witnesses, second update"),
+                         dict(hist="I [11,12,13] / U {1} fresh / R / A / U {2,4} / A", what="one tree object; after every operation root, size, append path, batch root, witnesses, proofs of the same leaves")],
+                list_lengths=res["sizes"], leaf_subsets=res["subsets"], subset_shapes=res["shapes"], histories=res["histories"],
+                history_steps=res["history_steps"], evaluations=res["evaluations"],
+                witness_positions=res["witness_positions"], tampered_rejected=res["tampered_rejected"], exhaustive=True,
+                scenario_counts=cov, gated_subchecks_skipped=gated, sample_seed=sample_seed,
+                rule="sizes 0..%d exhaustively (incremental = batch = declarative root checked by TLC and on the real tree, 4 leaf-value families); all non-empty leaf subsets of lists up to 7 leaves; deterministic subset shapes of lists 8..%d and next to 64/128; sampled subsets of larger lists; TLC-simulated histories Append/Update/Reload of one tree object" % (maxn, maxn))
+    finish(ctx, LEVEL, covd, assumptions=["SHA-256 is injective on the terms that occur",
+                                          "proofs are requested by leaf hash: only leaves whose value has never been at another position are queried (values repeat in the lists themselves)"])
